@@ -107,7 +107,10 @@ async fn body(seed: u64, trace: Arc<Trace>, threaded: bool) -> Outcome {
     // (here: by this tap, from the exiting thread itself), no link may reach its mutation step with that actor as the
     // supervisor (>= Draining) or as the child (>= Stopping): link decides under the same lock, so it must see the status.
     let tap_log: Arc<std::sync::Mutex<Vec<(u8, u64, u64, u64)>>> = Arc::new(std::sync::Mutex::new(vec![]));
-    {
+    // (thread engine: the tap's own tree-lock round trip orders the exiting thread behind a linker that holds the lock, which hides a
+    // window in which the exit path does not take that lock; half of the threaded scenarios therefore run without the tap)
+    let use_tap = !threaded || Prng::new(seed ^ 0x7a9).chance(1, 2);
+    if use_tap {
         let tl = tap_log.clone();
         crate::ctl::ctl().set_tap(Some(Arc::new(move |id, a, b| {
             use ractor::verif::pt;
@@ -149,7 +152,11 @@ async fn body(seed: u64, trace: Arc<Trace>, threaded: bool) -> Outcome {
         }
         out
     };
-    let victim = p.below(n as u64) as usize;
+    // thread engine, a third of the scenarios: the victim is a childless node and the concurrent operations aim at it, so that the
+    // *first* child ever linked to it arrives while it exits
+    let all_leaves: Vec<usize> = (1..n).filter(|i| !nodes.iter().any(|x| x.parent == Some(*i))).collect();
+    let leaf_mode = threaded && !all_leaves.is_empty() && p.chance(1, 3);
+    let victim = if leaf_mode { *p.pick(&all_leaves) } else { p.below(n as u64) as usize };
     let d = descendants(victim, &nodes);
     let leaves: Vec<usize> = (1..n).filter(|i| !nodes.iter().any(|x| x.parent == Some(*i)) && *i != victim).collect();
     // movable leaves are relinked concurrently and excluded from the model-based clauses
@@ -245,7 +252,7 @@ async fn body(seed: u64, trace: Arc<Trace>, threaded: bool) -> Outcome {
                 if sp.chance(1, 4) {
                     tokio::time::sleep(std::time::Duration::from_millis(sp.range(1, 3))).await;
                 }
-                let target = sp.below(nn as u64) as usize;
+                let target = if leaf_mode && sp.chance(2, 3) { victim } else { sp.below(nn as u64) as usize };
                 match sp.below(3) {
                     0 if !movable.is_empty() => {
                         let x = *sp.pick(&movable);
@@ -533,9 +540,16 @@ pub fn run_one(seed: u64, rt: Option<&tokio::runtime::Runtime>) -> Outcome {
             o
         }
         Some(rt) => {
-            let intensity = *pr.pick(&[0u32, 30, 60]);
+            let intensity = *pr.pick(&[0u32, 30, 60, 90]);
             crate::th::begin(seed, intensity);
-            crate::ctl::ctl().set_rendezvous(ractor::verif::pt::LINK_BEFORE_LOCK, ractor::verif::pt::CLEANUP_AFTER_STOPPING);
+            if Prng::new(seed ^ 0x7a9).chance(1, 2) {
+                crate::ctl::ctl().set_rendezvous(ractor::verif::pt::LINK_BEFORE_LOCK, ractor::verif::pt::CLEANUP_AFTER_STOPPING);
+            } else {
+                // (these are the scenarios without the tap) a linker that has passed link's status check waits, under the tree lock and
+                // for a bounded spin, for the exiting actor to get past its own child sweep: the real exit path needs that lock for the
+                // sweep, so the wait simply times out; an exit path that skips the lock sails through and the child is linked too late
+                crate::ctl::ctl().set_rendezvous(ractor::verif::pt::LINK_IN_LOCK, ractor::verif::pt::CLEANUP_AFTER_TERMINATE);
+            }
             crate::ctl::ctl().rdv_spins.store(30_000, std::sync::atomic::Ordering::SeqCst);
             let trace = Arc::new(Trace::new());
             let mut o = rt.block_on(body(seed, trace, true));
